@@ -16,7 +16,7 @@
      convergence test used (the recurrence residual), [g_X] = (the largest 2-norm reached by any
      iterate or update term -- the quantity the drift allowance of the C08 oracle needs and
      that is not observable from outside the solver --, the smallest |resid - tol| any convergence
-     test saw) and [g_exit] = which `return` was taken:
+     test saw, the smallest scale-free pivot |<u,v>|/(||u|| ||v||) the iteration divided by) and [g_exit] = which `return` was taken:
      0 Ok(0) at start-up, 1 Ok(i) after a full step, 3 Ok(i) at the BiCGSTAB half step,
      2 budget exhausted (the final `Err(resid)`), 10 BiCGSTAB `rho_1 == 0`, 11 BiCGSTAB `omega == 0`,
      20..25 QMR `rho == 0`, `xi == 0`, `delta == 0`, `ep == 0`, `beta == 0`, `gamma == 0`. *)
@@ -35,7 +35,7 @@ Definition norm2 (v : list F) : F :=
   sqrt (fold_left (fun acc x => acc + abs x * abs x) v zero).
 
 Inductive iresult := IOk (k : nat) | IErr (e : F).          (* Result<usize, f64> *)
-Record trace := mkTr { t_X : F; t_M : F }.
+Record trace := mkTr { t_X : F; t_M : F; t_P : F }.
 Record ghost := mkG { g_t : list F; g_X : trace; g_exit : nat }.
 Definition iout := (iresult * list F * ghost)%type.         (* (Result, final x, ghost) *)
 
@@ -43,11 +43,17 @@ Definition tmax (a b : F) : F := if ltb a b then b else a.
 Definition tmin (a b : F) : F := if ltb b a then b else a.
 (* ghost bookkeeping after `*x += u`: largest norm of an update term / of an iterate *)
 Definition track (X : trace) (u x : list F) : trace :=
-  mkTr (tmax (tmax (t_X X) (norm2 u)) (norm2 x)) (t_M X).
+  mkTr (tmax (tmax (t_X X) (norm2 u)) (norm2 x)) (t_M X) (t_P X).
 (* ghost bookkeeping at a convergence test `resid <= tol`: the smallest distance |resid - tol| seen
    (a run whose decisions are within rounding of tol is excluded from the correspondence check) *)
-Definition see (X : trace) (resid tol : F) : trace := mkTr (t_X X) (tmin (t_M X) (abs (resid - tol))).
-Definition trace0 (x : list F) (resid tol : F) : trace := mkTr (norm2 x) (abs (resid - tol)).
+Definition see (X : trace) (resid tol : F) : trace := mkTr (t_X X) (tmin (t_M X) (abs (resid - tol))) (t_P X).
+Definition trace0 (x : list F) (resid tol : F) : trace := mkTr (norm2 x) (abs (resid - tol)) one.
+(* ghost bookkeeping at a pivot of the (bi-)Lanczos process, i.e. an inner product the code divides by:
+   the smallest scale-free size |<u,v>| / (||u|| ||v||) seen -- 0 at an exact breakdown, tiny at a near-breakdown.
+   [gdiv] is total (a ghost must never panic): where the arithmetic's division panics it yields 0. *)
+Definition gdiv (a b : F) : F := match div a b with Ok q => q | Panic _ => zero end.
+Definition cosq (ip : F) (u v : list F) : F := gdiv (abs ip) (norm2 u * norm2 v).
+Definition pivot (X : trace) (c : F) : trace := mkTr (t_X X) (t_M X) (tmin (t_P X) c).
 
 Inductive step_out (S : Type) := Continue (s : S) | Return (o : iout).
 Arguments Continue {S} s. Arguments Return {S} o.
@@ -98,7 +104,7 @@ Definition cg_body (tol normb : F) (i : nat) (s : cg_st) : res (step_out cg_st) 
   let* x := vadd (cg_x s) u in
   let* r := vsub (cg_r s) (vscale q alpha) in
   let* resid := div (norm2 r) normb in
-  let X := see (track (cg_X s) u x) resid tol in
+  let X := see (track (pivot (cg_X s) (cosq pq p q)) u x) resid tol in
   if leb resid tol then Ok (Return (IOk i, x, mkG r X 1))
   else Ok (Continue (mkCG x r p z rho resid X)).
 
@@ -127,18 +133,18 @@ Definition bicg_body (itol : nat) (tol bnrm : F) (i : nat) (s : bicg_st) : res (
                     let* p := vadd (bi_z s) (vscale (bi_p s) beta) in
                     let* pp := vadd zz (vscale (bi_pp s) beta) in Ok (p, pp)) in
   let '(p, pp) := ppp in
-  let* z := mulA p in
-  let* zpp := dot z pp in
+  let* z0 := mulA p in
+  let* zpp := dot z0 pp in
   let* alpha := div rho_1 zpp in
   let* zz := mulAT pp in
   let u := vscale p alpha in
   let* x := vadd (bi_x s) u in
-  let* r := vsub (bi_r s) (vscale z alpha) in
+  let* r := vsub (bi_r s) (vscale z0 alpha) in
   let* rr := vsub (bi_rr s) (vscale zz alpha) in
-  let* z := ident_pre r z in
+  let* z := ident_pre r z0 in
   let* err := (if itol =? 1 then div (norm2 r) bnrm else Ok (bi_err s)) in
   let* err := (if itol =? 2 then div (norm2 z) bnrm else Ok err) in
-  let X := see (track (bi_X s) u x) err tol in
+  let X := see (track (pivot (pivot (bi_X s) (cosq rho_1 (bi_z s) (bi_rr s))) (cosq zpp z0 pp)) u x) err tol in
   if leb err tol then Ok (Return (IOk i, x, mkG (if itol =? 2 then z else r) X 1))
   else Ok (Continue (mkBI x r rr z zz p pp rho_1 err X)).
 
@@ -191,7 +197,7 @@ Definition stab_body (rtilde : list F) (tol normb : F) (i : nat) (s : stab_st) :
   let* alpha := div rho_1 rv in
   let* sv := vsub (st_r s) (vscale v alpha) in
   let* resid := div (norm2 sv) normb in
-  let X0 := see (st_X s) resid tol in
+  let X0 := see (pivot (pivot (st_X s) (cosq rho_1 rtilde (st_r s))) (cosq rv rtilde v)) resid tol in
   if leb resid tol then
     let u := vscale phat alpha in
     let* x := vadd (st_x s) u in
@@ -204,7 +210,7 @@ Definition stab_body (rtilde : list F) (tol normb : F) (i : nat) (s : stab_st) :
   let* omega := div ts tdt in
   let u1 := vscale_l alpha phat in
   let* x := vadd (st_x s) u1 in
-  let X := track X0 u1 x in
+  let X := track (pivot X0 (cosq ts t sv)) u1 x in
   let u2 := vscale_l omega shat in
   let* x := vadd x u2 in
   let X := track X u2 x in
@@ -286,7 +292,7 @@ Definition qmr_body (tol normb : F) (i : nat) (s : qmr_st) : res (step_out qmr_s
   let* x := vadd (q_x s) d in
   let* r := vsub (q_r s) sv in
   let* resid := div (norm2 r) normb in
-  let X := see (track (q_X s) d x) resid tol in
+  let X := see (track (pivot (pivot (q_X s) (abs delta)) (cosq ep q p_tld)) d x) resid tol in
   if leb resid tol then Ok (Return (IOk i, x, mkG r X 1)) else
   Ok (Continue (mkQ x r v_tld y w_tld z p q d sv rho xi gamma eta theta ep resid X)).
 
@@ -333,12 +339,12 @@ Definition it_flat (fs : F -> list Z) (n : nat) (o : res iout) : list Z :=
   fl_res (fun o : iout =>
     (match fst (fst o) with IOk k => fl_nat 0 ++ fl_nat k ++ fl_list fs (snd (fst o)) | IErr e => fl_nat 1 end)
     ++ fl_nat n) o.
-(* everything, for the oracles: tag, count or error value, x, budget, then the ghost trace X, exit code, margin *)
+(* everything, for the oracles: tag, count or error value, x, budget, then the ghost trace X, exit code, margin, smallest pivot *)
 Definition it_flat_tr (fs : F -> list Z) (n : nat) (o : res iout) : list Z :=
   fl_res (fun o : iout =>
     (match fst (fst o) with IOk k => fl_nat 0 ++ fl_nat k | IErr e => fl_nat 1 ++ fs e end)
     ++ fl_list fs (snd (fst o)) ++ fl_nat n
-    ++ fs (t_X (g_X (snd o))) ++ fl_nat (g_exit (snd o)) ++ fs (t_M (g_X (snd o)))) o.
+    ++ fs (t_X (g_X (snd o))) ++ fl_nat (g_exit (snd o)) ++ fs (t_M (g_X (snd o))) ++ fs (t_P (g_X (snd o)))) o.
 
 End Iter.
 
